@@ -935,3 +935,115 @@ def relator_scan_shape(ctx, rule, g):
             ctx.ob(rule, b.name, ("undefined-image exit" if early else "budget-used exit"), "ok" if ok0 and ok1 else "violation",
                    "reports (row reached, %s)" % ("letters consumed so far" if early else "limit") if ok0 and ok1 else
                    "the exit reports (%s, %s), not (row reached, %s)" % (show(vals[0], 1)[:30], show(vals[1], 1)[:30], "the loop's index in 0..limit" if early else "limit"), b.span_of(bi))
+
+
+def orbit_member_fixed_tests(ctx, rule, b, call_bb, t, g, ds, idx_terms, polarity, what):
+    """`orbit.iter().any(|&e| op(i, e) == Some(e) || op(j, e) == Some(e))` (polarity "any") or
+    `.all(|&e| op(i, e) != Some(e) && op(j, e) != Some(e))` (polarity "all"): every test is a fixed-point test of the chamber e handed to
+    the closure (not of the orbit's representative), and the tests cover exactly the given index terms"""
+    clo = norm(b.origin(t["args"][1]), g)
+    parts = closure_parts(clo)
+    if parts is None:
+        ctx.ob(rule, b.name, what + ":closure", "violation", "the test over the orbit is not a closure literal", b.span_of(call_bb))
+        return
+    cname, caps = parts
+    cb = ctx.facts.bodies.get(cname)
+    if cb is None:
+        raise AnchorMissing(cname)
+    ctx.scan([cb])
+    capmap = {("field", ("param", 1, ""), str(k)): strip(v) for k, v in enumerate(caps)}
+    e_ = ("param", 2, "")
+    tested = set()
+    bad = None
+    disj = bool_join_disjuncts(cb, 0, g)
+
+    def parse(a):
+        """-> (index term, positive?) for a fixed-point test at e, "bad" for a test at something else, None for unrelated atoms"""
+        lhs = rhs = None
+        pos = None
+        if a[0] == "rel" and a[1] in ("Eq", "Ne"):
+            lhs, rhs, pos = a[2], a[3], a[1] == "Eq"
+        elif a[0] == "bool" and a[1][0] == "call" and (a[1][1].endswith("PartialEq::eq") or a[1][1].endswith("PartialEq::ne")):
+            lhs, rhs = a[1][2]
+            pos = a[1][1].endswith("::eq") == a[2]
+        if lhs is None:
+            return None
+        if not is_call(lhs, "DSet::op"):
+            lhs, rhs = rhs, lhs
+        if not is_call(lhs, "DSet::op"):
+            return None
+        okf = capmap.get(strip(lhs[2][0])) == ds and strip(lhs[2][2]) == e_ and rhs[0] == "agg" and rhs[1].endswith("Option::Some") and strip(rhs[2][0]) == e_
+        if not okf:
+            return "bad"
+        return (capmap.get(strip(lhs[2][1])), pos)
+    if polarity == "any":
+        for bb, atoms in disj:
+            r = parse(atoms[-1])
+            if r is None or r == "bad" or not r[1]:
+                bad = "a way of answering yes is not a fixed-point test op(k, e) == Some(e) at the orbit chamber e handed to the closure: %s (a test at the representative only misses the other chambers of a chain)" % show_atom(atoms[-1])[:80]
+            else:
+                tested.add(r[0])
+    else:
+        if len(disj) != 1:
+            bad = "the conjunction has %d ways of being true" % len(disj)
+        for bb, atoms in disj[:1]:
+            for a in atoms:
+                r = parse(a)
+                if r == "bad":
+                    bad = "a conjunct is not a test op(k, e) != Some(e) at the orbit chamber e handed to the closure: %s (a test at the representative only misses the other chambers of a chain)" % show_atom(a)[:80]
+                elif r is not None and not r[1]:
+                    tested.add(r[0])
+    if not bad and tested != set(idx_terms):
+        bad = "the tests cover the indices %s, not exactly %s" % (sorted(show(x, 1) for x in tested if x), sorted(show(x, 1) for x in idx_terms))
+    ctx.ob(rule, b.name, what, "ok" if not bad else "violation", "a fixed-point test of every chamber of the orbit for both indices" if not bad else bad, b.span_of(call_bb))
+
+
+def index_ranges_inclusive(ctx, rule, bodies, g, floor):
+    """every loop whose variable is used as the INDEX argument of op / op_unchecked runs up to dim() inclusively (a D-set of dimension n
+    has the n + 1 operations 0..=n; `0..dim()` silently ignores the last one)"""
+    n = 0
+    for b in bodies:
+        for bi, t in b.calls():
+            nm = t["callee"].get("def", "")
+            if not (nm.endswith("DSet::op") or nm.endswith("::op_unchecked")):
+                continue
+            idx = norm(b.origin(t["args"][1]), g)
+            r = loop_range_of_payload(b, idx, g)
+            if r is None:
+                continue
+            n += 1
+            hi = r[1]
+            isdim = hi is not None and (is_call(hi, "::dim") or (hi[0] == "field" and hi[2] == "dim") or contains(hi, lambda y: is_call(y, "::dim") or (y[0] == "field" and y[2] == "dim")))
+            ok = isdim and r[2] and eval_int(hi) is None
+            plus1 = hi is not None and not r[2] and unov_term(hi)[0] == "binop" and unov_term(hi)[1] == "Add" and ("int", 1) in unov_term(hi)[2:]
+            ok = ok or (isdim and plus1)
+            ctx.ob(rule, b.name, "index loop of %s" % nm.split("::")[-1], "ok" if ok else "violation",
+                   "the operation index runs up to dim() inclusively" if ok else
+                   "the operation index runs over %s..%s%s: the last operation (index dim()) is never looked at" % (show(r[0], 1), "=" if r[2] else "", show(hi, 1)[:40] if hi is not None else ""), b.span_of(bi))
+    ctx.floor("loops over operation indices (%s)" % rule, n, floor)
+
+
+def unov_term(t):
+    return ("binop", t[1][1].replace("WithOverflow", ""), t[1][2], t[1][3]) if t[0] == "field" and str(t[2]) == "0" and t[1][0] == "binop" else t
+
+
+def paths_to(body, start, targets, stop=(), g=None, limit=200):
+    """acyclic CFG paths from block `start` to any block in `targets` that avoid `stop` and the panic region:
+    [(target, [normalised atoms of the edges taken])]"""
+    pan = body.panic_blocks()
+    out = []
+    succ = body.succ()
+
+    def dfs(bb, seen, atoms):
+        if len(out) >= limit:
+            return
+        if bb in targets:
+            out.append((bb, list(atoms)))
+            return
+        for nx in succ.get(bb, []):
+            if nx in seen or nx in stop or nx in pan:
+                continue
+            ea = [atom_norm(a, g) for a in body.edge_atoms((bb, nx))]
+            dfs(nx, seen | {nx}, atoms + ea)
+    dfs(start, {start}, [])
+    return out
